@@ -344,6 +344,20 @@ func (c *Chain) ViewsPnft(ctx sdk.Context, vo ViewOpts) M {
 }
 
 func (c *Chain) Views(vo ViewOpts) M {
+	if c.Opts.OldReads {
+		// read noise: the same queries served at the PREVIOUS committed height (the node's gRPC path, a read-only state of an older version);
+		// answers are discarded - a read never changes what later reads at the latest state return
+		if h := c.App.LastBlockHeight(); h >= 2 {
+			func() {
+				defer func() { recover() }()
+				if qctx, err := c.App.CreateQueryContext(h-1, false); err == nil {
+					c.ViewsDid(qctx, vo)
+					c.ViewsAol(qctx, ViewOpts{Topics: vo.Topics})
+					c.ViewsPnft(qctx, ViewOpts{Denoms: vo.Denoms, Tokens: vo.Tokens})
+				}
+			}()
+		}
+	}
 	ctx := c.Ctx()
 	return M{"aol": c.ViewsAol(ctx, vo), "did": c.ViewsDid(ctx, vo), "pnft": c.ViewsPnft(ctx, vo)}
 }
